@@ -27,13 +27,15 @@
 package c08_test
 
 import (
+	"bytes"
 	"context"
+	"crypto/sha256"
+	"encoding/hex"
 	"encoding/json"
 	"errors"
 	"fmt"
 	"math/rand"
 	"os"
-	"regexp"
 	"runtime"
 	"sort"
 	"strconv"
@@ -208,15 +210,13 @@ type client struct {
 
 // jn is what a client sees: the notice's JSON form.
 type jn struct {
-	ID           string            `json:"id"`
-	UserID       *uint32           `json:"user-id"`
-	Type         string            `json:"type"`
-	Key          string            `json:"key"`
-	LastOccurred time.Time         `json:"last-occurred"`
-	LastRepeated time.Time         `json:"last-repeated"`
-	Occurrences  int               `json:"occurrences"`
-	LastData     map[string]string `json:"last-data"`
-	RepeatAfter  string            `json:"repeat-after"`
+	ID           string    `json:"id"`
+	UserID       *uint32   `json:"user-id"`
+	Type         string    `json:"type"`
+	Key          string    `json:"key"`
+	LastOccurred time.Time `json:"last-occurred"`
+	LastRepeated time.Time `json:"last-repeated"`
+	Occurrences  int       `json:"occurrences"`
 }
 
 func (n jn) key() entryKey {
@@ -232,15 +232,34 @@ func (n jn) brief() string {
 }
 
 func toJSONView(ns []*state.Notice) ([]jn, error) {
-	b, err := json.Marshal(ns)
-	if err != nil {
-		return nil, err
-	}
-	var out []jn
-	if err := json.Unmarshal(b, &out); err != nil {
-		return nil, err
+	// One notice at a time: under -race every freed object > 32 KiB costs a
+	// shadow remap, so no list-sized buffers.
+	out := make([]jn, 0, len(ns))
+	for _, n := range ns {
+		b, err := json.Marshal(n)
+		if err != nil {
+			return nil, err
+		}
+		var x jn
+		if err := json.Unmarshal(b, &x); err != nil {
+			return nil, err
+		}
+		out = append(out, x)
 	}
 	return out, nil
+}
+
+func sameView(a, b []jn) bool {
+	if len(a) != len(b) {
+		return false
+	}
+	for i := range a {
+		if a[i].ID != b[i].ID || a[i].key() != b[i].key() || !a[i].LastRepeated.Equal(b[i].LastRepeated) ||
+			!a[i].LastOccurred.Equal(b[i].LastOccurred) || a[i].Occurrences != b[i].Occurrences {
+			return false
+		}
+	}
+	return true
 }
 
 // ---------------------------------------------------------------------------
@@ -256,18 +275,45 @@ type hist struct {
 	m       *model
 	clock   time.Time
 	clients []*client
-	log     []string // recent events (ring)
-	failed  int32    // atomic: a violation was reported for this history
+	log     []logEv // recent events (ring)
+	failed  int32   // atomic: a violation was reported for this history
 
 	// per-history tallies (for the non-triviality rule)
 	nNewOrRep, nSuppressed, nSameTickEffective, nDelivered int
 }
 
+// logf records an event lazily (formatting 50k events per run is measurable
+// under -race); time.Time arguments are rendered as offsets from the anchor and
+// filters as JSON when the log is actually needed.
 func (h *hist) logf(format string, a ...interface{}) {
 	if len(h.log) >= 120 {
-		h.log = h.log[len(h.log)-80:]
+		h.log = append(h.log[:0], h.log[len(h.log)-80:]...)
 	}
-	h.log = append(h.log, fmt.Sprintf(format, a...))
+	h.log = append(h.log, logEv{format, a})
+}
+
+func (h *hist) events() []string {
+	out := make([]string, 0, len(h.log))
+	for _, e := range h.log {
+		args := make([]interface{}, len(e.args))
+		for i, a := range e.args {
+			switch v := a.(type) {
+			case time.Time:
+				args[i] = off(v)
+			case filterSpec:
+				args[i] = kit.JSON(v)
+			default:
+				args[i] = a
+			}
+		}
+		out = append(out, fmt.Sprintf(e.format, args...))
+	}
+	return out
+}
+
+type logEv struct {
+	format string
+	args   []interface{}
 }
 
 func (h *hist) violation(sig string, extra map[string]interface{}) {
@@ -276,7 +322,7 @@ func (h *hist) violation(sig string, extra map[string]interface{}) {
 		"case_index": h.idx,
 		"part":       h.part,
 		"params":     h.params,
-		"recent":     append([]string(nil), h.log...),
+		"recent":     h.events(),
 	}
 	for k, v := range extra {
 		w[k] = v
@@ -362,7 +408,7 @@ func (h *hist) doAdd(a addSpec) (k entryKey, newOrRepeated bool) {
 			h.nSameTickEffective++
 		}
 	}
-	h.logf("add %s ra=%s step=%s clock=%s -> id=%s eff=%s new=%v repeated=%v", k, a.RA, a.Step, off(h.clock), id, off(eff), isNew, repeated)
+	h.logf("add %s ra=%s step=%s clock=%s -> id=%s eff=%s new=%v repeated=%v", k, a.RA, a.Step, h.clock, id, eff, isNew, repeated)
 	if isNew {
 		e.id = id
 	} else if e.id != id {
@@ -420,11 +466,11 @@ func (h *hist) judge(cl *client, got []jn, via string) {
 			}
 		}
 	}
-	var briefs []string
-	for _, n := range got {
-		briefs = append(briefs, n.brief())
-	}
 	wit := func(extra map[string]interface{}) map[string]interface{} {
+		var briefs []string
+		for _, n := range got {
+			briefs = append(briefs, n.brief())
+		}
 		var e []string
 		for k := range exp {
 			e = append(e, fmt.Sprintf("%s last-repeated=%s", k, off(h.m.entries[k].lastRepeated)))
@@ -519,7 +565,7 @@ func (h *hist) judge(cl *client, got []jn, via string) {
 		c.Count("polls_with_foreign_user_notices_withheld", 1)
 	}
 	c.Max("max_notices_in_one_poll", len(got))
-	h.logf("poll client=%d via=%s filter=%s cursor-> %s returned=%d", cl.id, via, kit.JSON(cl.f), off(cl.cursor), len(got))
+	h.logf("poll client=%d via=%s filter=%s cursor-> %s returned=%d", cl.id, via, cl.f, cl.cursor, len(got))
 }
 
 // ---------------------------------------------------------------------------
@@ -617,7 +663,8 @@ func runSeq(c *kit.Check, idx int) {
 		}
 	})
 	params["filters"] = filters
-	sigParts := []interface{}{nKeys, nClients, kit.JSON(filters)}
+	sigH := sha256.New()
+	fmt.Fprintln(sigH, nKeys, nClients, kit.JSON(filters))
 	defer func() {
 		if p := recover(); p != nil {
 			h.violation("C08:seq:panic", map[string]interface{}{"panic": fmt.Sprint(p)})
@@ -627,12 +674,12 @@ func runSeq(c *kit.Check, idx int) {
 		switch p := r.Intn(100); {
 		case p < 60:
 			a := genAdd(r, keys)
-			sigParts = append(sigParts, "a", a.User, a.Type, a.Key, a.RA, a.Step)
+			fmt.Fprintln(sigH, "a", a.User, a.Type, a.Key, a.RA, a.Step)
 			locked(func() { h.doAdd(a) })
 		case p < 97:
 			cl := h.clients[r.Intn(len(h.clients))]
 			alsoWait := r.Intn(4) == 0
-			sigParts = append(sigParts, "p", cl.id, alsoWait)
+			fmt.Fprintln(sigH, "p", cl.id, alsoWait)
 			locked(func() {
 				filter := cl.f.toState(cl.cursor)
 				got, err := toJSONView(st.Notices(filter))
@@ -645,7 +692,7 @@ func runSeq(c *kit.Check, idx int) {
 					// matching notices present it must return the same list at once.
 					ns, werr := st.WaitNotices(context.Background(), filter)
 					got2, jerr := toJSONView(ns)
-					if werr != nil || jerr != nil || kit.JSON(got2) != kit.JSON(got) {
+					if werr != nil || jerr != nil || !sameView(got2, got) {
 						h.violation("C08:wait:immediate-result-differs-from-notices", map[string]interface{}{
 							"notices": kit.JSON(got), "wait_notices": kit.JSON(got2), "error": fmt.Sprint(werr, jerr)})
 						return
@@ -659,12 +706,12 @@ func runSeq(c *kit.Check, idx int) {
 			// a client goes away and a new one (new filter, no cursor) arrives
 			i := r.Intn(len(h.clients))
 			f := genFilter(r, keys)
-			sigParts = append(sigParts, "r", i, kit.JSON(f))
+			fmt.Fprintln(sigH, "r", i, kit.JSON(f))
 			locked(func() {
 				cl := h.newClient(f)
 				cl.id = i
 				h.clients[i] = cl
-				h.logf("client %d replaced: filter=%s", i, kit.JSON(f))
+				h.logf("client %d replaced: filter=%s", i, f)
 			})
 			c.Count("client_resets", 1)
 		}
@@ -689,14 +736,14 @@ func runSeq(c *kit.Check, idx int) {
 	c.Eval()
 	c.Count("seq_histories", 1)
 	if h.nSameTickEffective > 0 && h.nSuppressed > 0 && h.nDelivered > 0 {
-		c.Nontrivial(kit.Sig(sigParts...))
+		c.Nontrivial(hex.EncodeToString(sigH.Sum(nil)[:8]))
 	}
 	if idx >= 2 {
 		return
 	}
 	c.Sample(map[string]interface{}{"part": "seq", "case_index": idx, "params": params,
 		"new_or_repeated": h.nNewOrRep, "not_repeated": h.nSuppressed, "bumped_new_or_repeated": h.nSameTickEffective,
-		"delivered": h.nDelivered, "first_events": firstN(h.log, 12)})
+		"delivered": h.nDelivered, "events_excerpt": firstN(h.events(), 12)})
 }
 
 func lastN(s []string, n int) []string {
@@ -731,29 +778,45 @@ type gdump struct {
 	ids    []int64
 }
 
-var (
-	reHeader = regexp.MustCompile(`^goroutine (\d+) \[([^\]]*)\]:`)
-)
+// dumpBuf is reused by every probe (probes run under a state lock and histories
+// run one after the other, so there is a single user at any time).
+var dumpBuf = make([]byte, 512<<10)
 
-func takeDump(buf *[]byte) gdump {
+func takeDump() gdump {
 	for {
-		n := runtime.Stack(*buf, true)
-		if n < len(*buf) {
-			return parseDump(string((*buf)[:n]))
+		n := runtime.Stack(dumpBuf, true)
+		if n < len(dumpBuf) {
+			return parseDump(dumpBuf[:n])
 		}
-		*buf = make([]byte, 2*len(*buf))
+		dumpBuf = make([]byte, 2*len(dumpBuf))
 	}
 }
 
-func parseDump(s string) gdump {
+var goroutinePrefix = []byte("goroutine ")
+
+// parseDump reads the "goroutine N [status]:" header of every block.
+func parseDump(b []byte) gdump {
 	d := gdump{status: map[int64]string{}}
-	for _, block := range strings.Split(s, "\n\n") {
-		m := reHeader.FindStringSubmatch(block)
-		if m == nil {
+	for len(b) > 0 {
+		line := b
+		if i := bytes.IndexByte(b, '\n'); i >= 0 {
+			line, b = b[:i], b[i+1:]
+		} else {
+			b = nil
+		}
+		if !bytes.HasPrefix(line, goroutinePrefix) || !bytes.HasSuffix(line, []byte("]:")) {
 			continue
 		}
-		id, _ := strconv.ParseInt(m[1], 10, 64)
-		d.status[id] = m[2]
+		rest := line[len(goroutinePrefix):]
+		sp := bytes.IndexByte(rest, ' ')
+		if sp <= 0 || sp+1 >= len(rest) || rest[sp+1] != '[' {
+			continue
+		}
+		id, err := strconv.ParseInt(string(rest[:sp]), 10, 64)
+		if err != nil {
+			continue
+		}
+		d.status[id] = string(rest[sp+2 : len(rest)-2])
 		d.ids = append(d.ids, id)
 	}
 	return d
@@ -886,7 +949,6 @@ func runConc(c *kit.Check, idx int, baseline map[int64]bool) bool {
 	plan := genConc(idx)
 	h := &hist{chk: c, part: "conc", idx: idx, params: plan, st: state.New(nil), m: newModel(), clock: anchor}
 	st := h.st
-	dumpBuf := make([]byte, 256<<10)
 	locked := func(who string, f func()) {
 		st.Lock()
 		defer st.Unlock()
@@ -1001,7 +1063,7 @@ func runConc(c *kit.Check, idx int, baseline map[int64]bool) bool {
 					w.waiting = true
 					c.Count("waits_started", 1)
 					h.logf("waiter %d round %d registers (goroutine %d) filter=%s after=%s pending-matching=%d precancelled=%d",
-						i, round, gid, kit.JSON(w.cl.f), off(w.cl.cursor), expBefore, w.plan.PreCanceled[round])
+						i, round, gid, w.cl.f, w.cl.cursor, expBefore, w.plan.PreCanceled[round])
 					ns, err := st.WaitNotices(ctx, filter)
 					w.waiting = false
 					if err != nil {
@@ -1056,7 +1118,7 @@ func runConc(c *kit.Check, idx int, baseline map[int64]bool) bool {
 				locked(who, func() {
 					var before gdump
 					if a.Probe == 1 {
-						before = takeDump(&dumpBuf)
+						before = takeDump()
 						c.Count("goroutine_dump_probes", 1)
 						checkParked(before, "before-add")
 					}
@@ -1071,7 +1133,7 @@ func runConc(c *kit.Check, idx int, baseline map[int64]bool) bool {
 						}
 					}
 					if a.Probe == 1 {
-						after := takeDump(&dumpBuf)
+						after := takeDump()
 						c.Count("goroutine_dump_probes", 1)
 						for _, w := range waiters {
 							if w.waiting && w.mustWake && before.parked(w.gid) && !after.parked(w.gid) {
@@ -1083,7 +1145,7 @@ func runConc(c *kit.Check, idx int, baseline map[int64]bool) bool {
 				})
 				if a.Probe == 2 {
 					locked(who, func() {
-						d := takeDump(&dumpBuf)
+						d := takeDump()
 						c.Count("goroutine_dump_probes", 1)
 						checkParked(d, "after-adders-unlock")
 					})
@@ -1148,7 +1210,7 @@ func runConc(c *kit.Check, idx int, baseline map[int64]bool) bool {
 		all := true
 		stuck := false
 		locked("monitor", func() {
-			d := takeDump(&dumpBuf)
+			d := takeDump()
 			c.Count("goroutine_dump_probes", 1)
 			checkParked(d, "at-quiescence")
 			helpers := 0
@@ -1223,7 +1285,7 @@ func runConc(c *kit.Check, idx int, baseline map[int64]bool) bool {
 		c.Sample(map[string]interface{}{"part": "conc", "case_index": idx, "keys": plan.Keys, "prefill": plan.Prefill,
 			"adders": len(plan.Adders), "pollers": len(plan.Pollers), "waiter_filters": wf,
 			"first_adds_of_adder0": firstAdds(plan.Adders[0], 4),
-			"wake_obligations":     atomic.LoadInt64(&nObligations), "last_events": lastN(h.log, 14)})
+			"wake_obligations":     atomic.LoadInt64(&nObligations), "last_events": lastN(h.events(), 14)})
 	}
 	return true
 }
@@ -1259,13 +1321,12 @@ func TestVerifC08(t *testing.T) {
 	c.Assume("the shadow model transcribes the documented rules (occurrence time = clock if after the last issued timestamp else last+1ns; repeat when repeat-after is 0 or occurrence > last-repeated + repeat-after of this call)")
 	c.Assume("a goroutine shown as [sync.Cond.Wait] in a runtime.Stack(all) dump taken while holding the state lock has not been signalled since it parked")
 
-	nSeq := kit.Scale(160, 600)
-	nConc := kit.Scale(50, 150)
+	nSeq := kit.Scale(200, 1000)
+	nConc := kit.Scale(60, 250)
 	if only := kit.OnlyCase(); only >= 0 {
 		// replay of one case: sequential indices are < 1e6, concurrent ones >= 1e6
 		baseline := map[int64]bool{}
-		buf := make([]byte, 64<<10)
-		for _, id := range takeDump(&buf).ids {
+		for _, id := range takeDump().ids {
 			baseline[id] = true
 		}
 		if only < 1000000 {
@@ -1290,8 +1351,7 @@ func TestVerifC08(t *testing.T) {
 	c.Note("seq_wall_s", time.Since(tSeq).Seconds()) // informational only
 	tConc := time.Now()
 	baseline := map[int64]bool{}
-	buf := make([]byte, 64<<10)
-	for _, id := range takeDump(&buf).ids {
+	for _, id := range takeDump().ids {
 		baseline[id] = true
 	}
 	for i := 0; i < nConc; i++ {
